@@ -410,7 +410,7 @@ impl StdGuard {
         for i in 0..3 {
             if let Some(f) = files[i] {
                 unsafe {
-                    saved[i] = libc::fcntl(i as i32, libc::F_DUPFD_CLOEXEC, 500);
+                    saved[i] = libc::syscall(libc::SYS_fcntl, i as i32, libc::F_DUPFD_CLOEXEC, 500) as i32;
                     assert!(saved[i] >= 0);
                     let r = libc::syscall(libc::SYS_dup2, f.as_raw_fd(), i as i32);
                     assert!(r >= 0);
@@ -421,6 +421,41 @@ impl StdGuard {
     }
 }
 impl Drop for StdGuard {
+    fn drop(&mut self) {
+        for i in 0..3 {
+            if self.saved[i] >= 0 {
+                unsafe {
+                    libc::syscall(libc::SYS_dup2, self.saved[i], i as i32);
+                    ip::raw_close(self.saved[i]);
+                }
+            }
+        }
+    }
+}
+
+
+/// Temporarily CLOSE some of this process's fds 0/1/2 (a daemon-like parent);
+/// restored on drop.
+pub struct CloseGuard {
+    saved: [i32; 3],
+}
+impl CloseGuard {
+    pub fn new(mask: u8) -> CloseGuard {
+        let mut saved = [-1; 3];
+        for i in 0..3 {
+            if mask & (1 << i) != 0 {
+                unsafe {
+                    saved[i] = libc::syscall(libc::SYS_fcntl, i as i32, libc::F_DUPFD_CLOEXEC, 500) as i32;
+                    if saved[i] >= 0 {
+                        ip::raw_close(i as i32);
+                    }
+                }
+            }
+        }
+        CloseGuard { saved }
+    }
+}
+impl Drop for CloseGuard {
     fn drop(&mut self) {
         for i in 0..3 {
             if self.saved[i] >= 0 {
